@@ -504,9 +504,12 @@ class AsyncHTTP2Connection(AsyncConnectionInterface):
         If the allowable flow is zero, then waits on the network until
         WindowUpdated frames have increased the flow rate.
         https://tools.ietf.org/html/rfc7540#section-6.9
+
+        A change to SETTINGS_INITIAL_WINDOW_SIZE can make the window negative.
+        https://tools.ietf.org/html/rfc7540#section-6.9.2
         """
         flow = self._outgoing_flow(stream_id)
-        while flow == 0:
+        while flow <= 0:
             await self._receive_events(request, flow_stream_id=stream_id)
             flow = self._outgoing_flow(stream_id)
         return flow
